@@ -191,6 +191,7 @@ func (r *aggregatorRole) ProcessTemplates(workflowRepo repos.IRepo, loadSubworkf
 		wg.Add(len(r.Roles))
 
 		var roleErrors *multierror.Error
+		var roleErrorsMu sync.Mutex
 
 		// Process templates for child roles
 		for roleIdx := range r.Roles {
@@ -201,7 +202,9 @@ func (r *aggregatorRole) ProcessTemplates(workflowRepo repos.IRepo, loadSubworkf
 				role.setParent(r)
 				err := role.ProcessTemplates(workflowRepo, loadSubworkflow, baseConfigStack)
 				if err != nil {
+					roleErrorsMu.Lock()
 					roleErrors = multierror.Append(roleErrors, err)
+					roleErrorsMu.Unlock()
 				}
 			}(roleIdx)
 		}
